@@ -867,6 +867,19 @@ Section EntriesAlwaysChecked.
     - destruct M as [E|E]; [contradiction|exact E].
   Qed.
 
+  (* repeats included: an entry whose ID already occurs earlier in the list gets the same
+     check as any other (there is no "already seen" shortcut) *)
+  Lemma repeated_id_entries_checked strict (a : ad pubkey sigt) x s l1 p l2 q l3 :
+    V strict a = Ok s -> a_ext a = Some x -> x_providers x = l1 ++ p :: l2 ++ q :: l3 -> p_id q = p_id p ->
+    ep_accepts pubkey sigt peerid verify peer_id Hf decode_pid strict a x s p /\
+    ep_accepts pubkey sigt peerid verify peer_id Hf decode_pid strict a x s q.
+  Proof.
+    intros Va X Ps _. destruct (entries_always_checked _ _ _ _ Va X) as [F _].
+    rewrite Ps in F. rewrite Forall_forall in F. split; apply F.
+    - apply in_elt.
+    - apply in_or_app. right. right. apply in_elt.
+  Qed.
+
   (* in particular: whatever is attached to a removal advertisement, it is rejected; and so
      is any list with an entry whose signature field is absent or does not validate *)
   Lemma removal_with_entries_rejected strict (a : ad pubkey sigt) x :
